@@ -16,6 +16,6 @@ PROP = {
 
 TEXT = {
     "technique": "property-based testing + bounded exhaustive enumeration: streams assembled from frames, injected faults and noise are fed to the real receivers; statement-level predicates (bounded, sound, overflow, complete) are evaluated against an independent un-escaping/CRC reference over the raw stream; exact heap receive buffers under ASan/UBSan; libFuzzer in thorough",
-    "level": "Generated-input exploration with an exhaustive core: every stream of <= 6 symbols (<= 8 in thorough) over {START, STOP, ESC, the three escape codes, 'a', a valid crc byte} x capacities {2,3,4,8} x {configurable v1, configurable v0, legacy} (3.6 M streams quick) plus millions of random streams <= 400 bytes (noise, well-formed frames incl. ones that do not fit, back-to-back frames, single faults: truncation, bit flip, insertion, deletion, duplication, invalid escapes incl. escape+marker, stray delimiters; capacities 2..48). After every byte the stored length must be <= cap-1 (buffer is an exact heap block); every NEWPACKAGE must sit on a stop marker and deliver exactly the un-escaped bytes since the last start marker (previous delimiter when START == STOP; stream start for the legacy receiver) minus a matching CRC-8; a frame that does not fit is never delivered and is answered with OVERFLOW; every well-formed fitting frame is delivered at its stop marker when START != STOP, and from the second of a run of adjacent frames (first too after a delimiter-free prefix) when they coincide.  A separate target drives all three receivers with capacities 250..262 / 508..516 and frames about as long. Nothing is established beyond the explored streams.",
+    "level": "Generated-input exploration with an exhaustive core: every stream of <= 6 symbols (<= 8 in thorough) over {START, STOP, ESC, the three escape codes, 'a', a valid crc byte} x capacities {2,3,4,8} x {configurable v1, configurable v0, legacy} (3.6 M streams quick) plus millions of random streams <= 400 bytes (noise, well-formed frames incl. ones that do not fit, back-to-back frames, single faults: truncation, bit flip, insertion, deletion, duplication, invalid escapes incl. escape+marker, stray delimiters; capacities 2..48). After every byte the stored length must be <= cap-1 (buffer is an exact heap block); every NEWPACKAGE must sit on a stop marker and deliver exactly the un-escaped bytes since the last start marker (previous delimiter when START == STOP; stream start for the legacy receiver) minus a matching CRC-8; a frame that does not fit is never delivered and is answered with OVERFLOW; every well-formed fitting frame is delivered at its stop marker when START != STOP, and from the second of a run of adjacent frames (first too after a delimiter-free prefix) when they coincide.  A separate target drives all three receivers with capacities 250..262 / 508..516 and frames about as long. Nothing is established beyond the explored streams. Re-arming also announces the receiver's own buffer again with a smaller length; custom contexts include the doubled-escape convention.",
     "note": "Trusted: the harness' bit-serial CRC-8 and un-escaping reference; no reference automaton is used, so incidental status codes (GARBAGE/FORCE_RESTART/CRC_ERROR) are not judged; clang ASan/UBSan.",
 }
